@@ -6,3 +6,12 @@ package time
 // constant c relationally (fresh q, r with x == q*c + r, |r| < |c|, sign(r) = sign(x));
 // exact, see engine/interp/zz_reldiv.go. Natively a no-op.
 func zzRelDiv(on bool) {}
+
+// zzRelDivMode selects the relational encoding: 0 off, 1 signed relation only,
+// 2 magnitude relation only, 3 both, linked (what zzRelDiv(true) selects).
+func zzRelDivMode(m int) {}
+
+// zzSameF64 reports whether a and b are the same float64 value (equal, or both
+// NaN). The engine answers true without a solver query when both are the
+// identical symbolic term (mirror-form reference).
+func zzSameF64(a, b float64) bool { return a == b || (a != a && b != b) }
